@@ -235,3 +235,19 @@ reg("C09", "model_checking", "E2",
     "time model checked against the kernel at every transition; at every observation hash_function with the shared persistent "
     "cache must equal the same call with an empty cache directory, also through Task._checksum and in fresh interpreters.",
     "State = (content id, mtime) of both paths, directory mtime, clock and the exact persistent-cache files; only identical states merge; complete for the depth bound.")
+
+reg("C30", "model_checking", "E2",
+    "layered explicit-state BFS over construct/run histories on the real Workflow construction cache",
+    "24 ops (4 persistent task objects of 2 generic-workflow programs x 2 value sets; Workflow.construct with lazy sets {x},{y},{x,y} "
+    "or none, task.construct(), run on a fresh cache root): all histories of length <=3 (thorough 4) over the full alphabet, "
+    "continued per program to length 4 (6), states merged only on an exact structural dump of the cache and task memos; the last op of "
+    "every history is compared with the same op as a one-op history after Workflow.clear_cache() (graph signature, outputs, lazy "
+    "fields exactly the requested set, this task's own values otherwise). Exact-match, superset and memo branches located with sys.monitoring.",
+    "State that matters lives only in the class-level cache and the task objects; observations are made on deep copies (checked by key comparison).")
+reg("C31", "exploration", "E1",
+    "bounded exhaustive enumeration of task classes with requirement/xor rules x every value assignment against a reference predicate",
+    "All python and shell classes with n<=2 fields from {bool, str|None, int|None} x requires shapes x xor shapes on all 7^n raw "
+    "assignments plus real submissions, all n=3 classes (quick: one value per distinct stored value; thorough: every accepted "
+    "assignment), thorough adds n=4 and python n=5 families: a false reference verdict must raise before the body runs (empty log), a "
+    "true verdict must run; checked at _check_rules() and through the public submission.",
+    "'set' = not None and not False; the flat list requires=[f,g] (documented AND, parsed as OR) is evaluated both ways and skipped where they differ; other falsy values are outside the alphabet.")
